@@ -76,7 +76,9 @@ Definition flatten_subarray (el var_begin : Z) (dimlen start count stride : list
   end.
 
 (* flatten_req: one blocking put.  stride = None is a NULL pointer.
-   NOTE the record loop: var_begin advances by ONE record per iteration whatever stride[0] is. *)
+   The record loop advances var_begin by recsize * stride0 per iteration (stride0 = stride[0], or 1
+   for a NULL stride).  Before the fix it advanced by ONE record whatever stride[0] was: that
+   version is kept as flatten_req_old in Proofs_Aggregate.v together with its refutation. *)
 Definition flatten_req (g : geom) (start count : list Z) (stride : option (list Z)) : list (Z * Z) :=
   match g_shape g with
   | [] => [(g_begin g, g_xsz g)]
@@ -84,7 +86,8 @@ Definition flatten_req (g : geom) (start count : list Z) (stride : option (list 
     let st := match stride with Some t => t | None => ones (length (g_shape g)) end in
     if g_isrec g then
       let vb := g_begin g + hd 0 start * g_recsize g in
-      flat_map (fun j => flatten_subarray (g_xsz g) (vb + j * g_recsize g)
+      let stride0 := match stride with Some t => hd 1 t | None => 1 end in
+      flat_map (fun j => flatten_subarray (g_xsz g) (vb + j * (g_recsize g * stride0))
                                           (tl (g_shape g)) (tl start) (tl count) (tl st))
                (zrange 0 (hd 0 count))
     else flatten_subarray (g_xsz g) (g_begin g) (g_shape g) start count st
